@@ -42,6 +42,9 @@ class Tr:
         self.rename = dict(spec.get("rename", {}))   # python dotted name -> lean expression
         self.opaque = dict(spec.get("opaque", {}))   # ast.unparse(call) -> lean expression
         self.state = spec.get("state")               # name of the lean state variable when self is mutated
+        self.scope = spec.get("_scope")              # (module ast, class ast | None): where private helpers are looked up
+        self.helpers = spec.setdefault("_helpers", {})   # lean name -> definition text (shared with nested translations)
+        self.helper_types = spec.setdefault("_helper_types", {})
 
     # ---- expressions -------------------------------------------------------------------------
     def dotted(self, n) -> str | None:
@@ -58,6 +61,8 @@ class Tr:
             return self.types[d]
         if ast.unparse(n) in self.types:
             return self.types[ast.unparse(n)]
+        if isinstance(n, ast.Call) and self._helper_name(n) in self.helper_types:
+            return self.helper_types[self._helper_name(n)]
         if isinstance(n, ast.IfExp):
             return self.typ(n.body)
         if isinstance(n, ast.BoolOp):
@@ -148,7 +153,7 @@ class Tr:
             if isinstance(op, ast.In) and isinstance(a, ast.Constant) and isinstance(a.value, str) and len(a.value) == 1 and self.typ(b) == "str":
                 return f"({self.e(b)}).contains '{a.value}'"
             if isinstance(op, (ast.Is, ast.IsNot)) and isinstance(b, ast.Constant) and b.value is None:
-                return f"({self.e(a)}).{'isNone' if isinstance(op, ast.Is) else 'isSome'}"
+                return f"({self.raw(a)}).{'isNone' if isinstance(op, ast.Is) else 'isSome'}"
             if isinstance(op, ast.NotIn):
                 return f"(!({self.e(b)}).contains {self.e(a)})"
             if isinstance(op, ast.In):
@@ -171,6 +176,23 @@ class Tr:
                 return f"({self.e(n.args[0])}).isPrefixOf {self.e(f.value)}"
             if isinstance(f, ast.Attribute) and f.attr == "endswith" and len(n.args) == 1:
                 return f"({self.e(n.args[0])}).isSuffixOf {self.e(f.value)}"
+            if isinstance(f, ast.Name) and f.id in ("any", "all") and len(n.args) == 1 and isinstance(n.args[0], ast.GeneratorExp) \
+                    and len(n.args[0].generators) == 1 and isinstance(n.args[0].generators[0].target, ast.Name) and not n.args[0].generators[0].is_async:
+                g = n.args[0].generators[0]
+                body = self.cond(n.args[0].elt)
+                for c in g.ifs:          # `any(e for x in L if c)` = any(c and e); `all(...)` = all(c implies e)
+                    body = f"({self.cond(c)} && {body})" if f.id == "any" else f"(!{self.cond(c)} || {body})"
+                return f"({self.e(g.iter)}).{f.id} (fun {g.target.id} => {body})"
+            if isinstance(f, ast.Name) and f.id == "next" and len(n.args) == 2 and isinstance(n.args[0], ast.GeneratorExp) \
+                    and len(n.args[0].generators) == 1 and isinstance(n.args[0].generators[0].target, ast.Name) \
+                    and isinstance(n.args[1], ast.Constant) and n.args[1].value is None \
+                    and isinstance(n.args[0].elt, ast.Name) and n.args[0].elt.id == n.args[0].generators[0].target.id:
+                g = n.args[0].generators[0]
+                c = " && ".join(self.cond(x) for x in g.ifs) or "true"
+                return f"({self.e(g.iter)}).find? (fun {g.target.id} => {c})"       # an Option: `next((x for x in L if c), None)`
+            hn = self._helper_name(n)
+            if hn is not None and self.dotted(f) not in self.spec.get("funcs", {}) and self._ensure_helper(hn):
+                return "(" + self._lean_helper(hn) + "".join(" " + self.e(a) for a in n.args) + ")"
             if self.dotted(f) in self.spec.get("funcs", {}):
                 args = n.args[0].elts if len(n.args) == 1 and isinstance(n.args[0], ast.Tuple) else n.args
                 return "(" + self.spec["funcs"][self.dotted(f)] + " " + " ".join(self.e(a) for a in args) + ")"
@@ -209,6 +231,10 @@ class Tr:
     # ---- statements --------------------------------------------------------------------------
     def ret(self, n) -> str:
         if self.spec.get("ret_opt"):
+            if isinstance(n, ast.Call) and isinstance(n.func, ast.Name) and n.func.id == "next":
+                return self.e(n)                      # already an Option
+            if n is not None and self.typ(n).startswith("opt"):
+                return self.raw(n)
             return "none" if n is None or (isinstance(n, ast.Constant) and n.value is None) else f"some {self.e(n)}"
         rt = self.spec.get("ret_types")
         if rt and isinstance(n, ast.Tuple) and len(n.elts) == len(rt):
@@ -269,8 +295,9 @@ class Tr:
                 if not self.state:
                     raise Unsupported("mutation of self")
                 return f"{ind}let {self.state} := {{ {self.state} with {d[5:]} := {self.e(s.value)} }}\n" + self.block(rest, ind)
+            val = self.e(s.value)
             self.types.setdefault(d, self.typ(s.value))
-            return f"{ind}let {d} := {self.e(s.value)}\n" + self.block(rest, ind)
+            return f"{ind}let {d} := {val}\n" + self.block(rest, ind)
         if isinstance(s, ast.AnnAssign) and isinstance(s.target, ast.Name) and s.value is not None:
             self.types.setdefault(s.target.id, "list" if isinstance(s.value, ast.List) else self.typ(s.value))
             return f"{ind}let {s.target.id} := {self.e(s.value)}\n" + self.block(rest, ind)
@@ -284,6 +311,22 @@ class Tr:
             if d.startswith("self."):
                 return f"{ind}let {self.state} := {{ {self.state} with {d[5:]} := {self.e(s.target)} {op} {self.e(s.value)} }}\n" + self.block(rest, ind)
             return f"{ind}let {d} := {d} {op} {self.e(s.value)}\n" + self.block(rest, ind)
+        if isinstance(s, ast.If) and not s.orelse and self._none_test(s.test) is not None:
+            dn, is_none = self._none_test(s.test)
+            term = bool(s.body) and isinstance(s.body[-1], (ast.Return, ast.Raise))
+            saved = (dict(self.rename), dict(self.types))
+            if is_none and term:
+                none_branch = self.block(list(s.body), ind + "  ")
+                old, fresh = self._narrow(dn)
+                some_branch = self.block(rest, ind + "  ")
+                self.rename, self.types = saved
+                return f"{ind}match {old} with\n{ind}| none =>\n{none_branch}\n{ind}| some {fresh} =>\n{some_branch}"
+            if not is_none:
+                none_branch = self.block(rest, ind + "  ")
+                old, fresh = self._narrow(dn)
+                some_branch = self.block(list(s.body) + ([] if term else rest), ind + "  ")
+                self.rename, self.types = saved
+                return f"{ind}match {old} with\n{ind}| none =>\n{none_branch}\n{ind}| some {fresh} =>\n{some_branch}"
         if isinstance(s, ast.If):
             def falls(b):
                 return not b or not isinstance(b[-1], (ast.Return, ast.Raise)) and not (isinstance(b[-1], ast.If) and not falls(b[-1].body) and b[-1].orelse and not falls(b[-1].orelse))
@@ -341,6 +384,66 @@ class Tr:
             return f"{ind}match {self.opaque[call]} with\n{ind}| none => {self.ret(h[0].value)}\n{ind}| some {x} =>\n" + self.block(rest, ind + "  ")
         raise Unsupported(f"statement {type(s).__name__}: {ast.unparse(s)[:50]}")
 
+    # ---- private helpers of the same class / module, translated on demand ---------------------------------
+    def _helper_name(self, call):
+        d = self.dotted(call.func)
+        if d is None:
+            return None
+        name = d[5:] if d.startswith("self.") else d
+        return name if name.startswith("_") and "." not in name and not name.startswith("__") else None
+
+    def _lean_helper(self, name):
+        return self.spec["name"] + "_" + name.strip("_")
+
+    def _find_helper(self, name):
+        if not self.scope:
+            return None
+        module, cls = self.scope
+        for holder in ([cls] if cls is not None else []) + [module]:
+            for f in holder.body:
+                if isinstance(f, ast.FunctionDef) and f.name == name:
+                    return f
+        return None
+
+    def _ann(self, a):
+        """(translator type, Lean type) of a parameter / return annotation"""
+        src = ast.unparse(a) if a is not None else ""
+        strl = "List Nat" if self.spec.get("str") == "nat" else "List Char"
+        table = {"str": ("str", strl), "bool": ("bool", "Bool"), "str | None": ("optstr", f"Option ({strl})"), "list[str]": ("list", f"List ({strl})")}
+        table.update(self.spec.get("pytypes", {}))
+        if src not in table:
+            raise Unsupported(f"annotation {src!r} of a helper")
+        return table[src]
+
+    def _ensure_helper(self, name) -> bool:
+        """translate the private helper `name` into its own Lean definition (once); False when there is no such helper"""
+        lean = self._lean_helper(name)
+        if lean in self.helpers:
+            return True
+        f = self._find_helper(name)
+        if f is None:
+            return False
+        params = [a for a in f.args.args if a.arg not in ("self", "cls")]
+        sub = dict(self.spec)
+        sub.pop("mode", None)
+        sub.pop("stop_at", None)
+        sub.pop("ret_types", None)
+        sub["types"] = dict(self.spec.get("types", {}))
+        sig = []
+        for a in params:
+            t, lt = self.spec.get("paramtypes", {}).get(a.arg) or self._ann(a.annotation)
+            sub["types"][a.arg] = t
+            sig.append(f"({a.arg} : {lt})")
+        rt, rlt = self._ann(f.returns)
+        sub["ret_opt"] = rt.startswith("opt")
+        self.helpers[lean] = None                       # reserve (recursion guard)
+        self.helper_types[name] = rt
+        tr = Tr(sub)
+        tr.scope = self.scope
+        body = tr.block(list(f.body), "  ")
+        self.helpers[lean] = f"/-- helper `{name}`, translated (simp unfolds it: the proofs do not name helpers) -/\n@[simp] def {lean} {' '.join(sig)} : {rlt} :=\n{body}\n"
+        return True
+
     def _none_test(self, t):
         """(dotted name, is_none?) for `x is None` / `x is not None` on a name declared Optional"""
         if (isinstance(t, ast.Compare) and len(t.ops) == 1 and isinstance(t.ops[0], (ast.Is, ast.IsNot)) and isinstance(t.comparators[0], ast.Constant)
@@ -372,8 +475,9 @@ class Tr:
             return self.optblock(rest, ind)
         if isinstance(s, ast.Assign) and len(s.targets) == 1 and isinstance(s.targets[0], ast.Name):
             x = s.targets[0].id
+            val = self.e(s.value)
             self.types.setdefault(x, self.typ(s.value))
-            return f"{ind}let {x} := {self.e(s.value)}\n" + self.optblock(rest, ind)
+            return f"{ind}let {x} := {val}\n" + self.optblock(rest, ind)
         if isinstance(s, ast.If):
             def ends(b):
                 return bool(b) and isinstance(b[-1], (ast.Return, ast.Continue))
@@ -464,6 +568,8 @@ SPECS = [
          opaque={"self._extract_path(request_url)": "path0"},
          funcs={"self._find_matching_rule": "find"},
          attrs={"require_cert": "requireCert", "allowed_fingerprints": "allowed"},
+         pytypes={"CertificateAuthPathRule": ("obj", "Mw.Cert.Rule"), "str | None": ("optstr", "Option (List Nat)")},
+         paramtypes={"client_cert_fingerprint": ("optfp", "Option Mw.Cert.Fp")},
          ret_types=["bool", "optstr"],
          types={"path": "str", "candidates": "list", "candidate": "str", "rule": "optobj", "self._find_matching_rule(candidate)": "optobj",
                 "client_cert_fingerprint": "optfp", "rule.allowed_fingerprints": "optlist", "rule.require_cert": "bool"}),
@@ -528,10 +634,15 @@ def translate_all() -> tuple[dict[str, str], dict[str, str]]:
         out = ["-- GENERATED by harness/translate.py from the current source tree on every run — do not edit"] + [f"import {i}" for i in imports] + \
               ["namespace NauyacaVerif.Gen.Fn", ""] + prelude
         try:
-            f = find_func(ast.parse((src / spec["file"]).read_text()), spec["cls"], spec["func"])
+            module = ast.parse((src / spec["file"]).read_text())
+            f = find_func(module, spec["cls"], spec["func"])
             if f is None:
                 raise Unsupported("function not found")
+            spec = dict(spec)
+            spec["_scope"] = (module, next((n for n in ast.walk(module) if isinstance(n, ast.ClassDef) and n.name == spec["cls"]), None) if spec["cls"] else None)
+            spec["_helpers"], spec["_helper_types"] = {}, {}
             body = Tr(spec).block(list(f.body), "  ")
+            out += [h for h in spec["_helpers"].values() if h]
             out += [f"/-- `{(spec['cls'] + '.') if spec['cls'] else ''}{spec['func']}` ({spec['file']}), translated -/", spec["header"], body, ""]
             status[spec["name"]] = "ok"
         except Unsupported as e:
